@@ -552,6 +552,13 @@ class Result(JsonSerializable):
         if isinstance(total, np.generic) or (isinstance(total, np.ndarray)
                                              and total.ndim == 0):
             total = total.item()
+        # An array is stored by value: the result must not follow later
+        # changes that the caller makes to the array it passed (e.g. one
+        # buffer refilled in place for every repetition)
+        if isinstance(value, np.ndarray):
+            value = value.copy()
+        if isinstance(total, np.ndarray):
+            total = total.copy()
 
         # Note that `num_updates` is only increased in the end, after the
         # update was successful: an update that raises an exception must
